@@ -160,6 +160,7 @@ class Run(object):
         self.env = Env()
         self.env.__enter__()
         self.sock = None if req else FakeSocket('accepted')
+        self.local_max = max_pdu_length
         self.p = Stepped(self.sock, max_pdu_length)
         self.trace = [{'ev': 'Start', 'req': bool(req)}]
         self.transit = bytearray()
